@@ -123,6 +123,10 @@ func cmdVerify(args []string) {
 				fmt.Println("        ", r.Model, r.All)
 			}
 		}
+		if len(res.Dropped) > 0 {
+			fmt.Println("   dropped candidates:", strings.Join(res.Dropped, " "))
+		}
+		fmt.Printf("   candidates discharged: %d\n", res.Candidates)
 		for _, a := range res.Abstr {
 			fmt.Println("   abstraction:", a)
 		}
